@@ -288,7 +288,13 @@ def tier_cases(draw):
         spec["minT"] = min(spec["minT"], t0)
         s = draw(st.sampled_from([t0, t0 + w / 2]))
     pre = draw(st.one_of(st.none(), st.none(), st.fixed_dictionaries({"delete": st.one_of(st.none(), st.integers(0, 7))})))
-    return {"tier": spec, "s": s, "d": draw(durations(style)), "mode": draw(st.sampled_from(MODES)), "pre": pre}
+    d = draw(durations(style))
+    if style == "grid" and d >= 0.125 and draw(st.integers(0, 7)) == 0:
+        # a time axis below zero, placed so that the lengthened tier ends exactly at 0 (or, half of the time, somewhere below)
+        k = spec["maxT"] + d + draw(st.sampled_from([0.0, 0.0, 1.5]))
+        spec = dict(spec, entries=[[x - k for x in e[:-1]] + [e[-1]] for e in spec["entries"]], minT=spec["minT"] - k, maxT=spec["maxT"] - k)
+        s = s - k
+    return {"tier": spec, "s": s, "d": d, "mode": draw(st.sampled_from(MODES)), "pre": pre}
 
 
 @st.composite
